@@ -12,7 +12,7 @@ import Toodee.Impl.Recv
 namespace Toodee.Driver
 open Toodee
 
-inductive Elem | u32 | cell | zst | unit | nan
+inductive Elem | u32 | cell | zst | unit | nan | wide
 deriving DecidableEq, Repr
 
 /-- zero-sized kinds: positions are not observable, every value is 0 (`zst` = a ledgered unit struct with `Drop`; `unit` = `()`,
@@ -26,6 +26,12 @@ def nanVal : Nat := 4242424242
 
 /-- `T::eq` of the element kind -/
 def Elem.eqα (e : Elem) (x y : Nat) : Bool := if e = .nan then (x == y && x != nanVal) else x == y
+
+/-- `Copy` kinds on which the harness offers the `Copy`-only operations (`copy_*`; views serialise for `u32` only): `u32` and `wide` (a 96-byte
+    cell that otherwise behaves like `u32`; the element size is not a parameter of the model) -/
+def Elem.copyOps : Elem → Bool
+  | .u32 | .wide => true
+  | _ => false
 
 /-- kinds with a drop ledger -/
 def Elem.ledgered : Elem → Bool
